@@ -13,6 +13,7 @@ import TzVerif.Spec.Zone
 import TzVerif.Proofs.ZoneNew
 import TzVerif.Proofs.SrcEqZone
 import TzVerif.Proofs.SrcEqTzFileAux
+import TzVerif.Proofs.SrcEqLttEqual
 
 namespace TzVerif.C13
 open TzVerif.Model
@@ -104,5 +105,18 @@ theorem translated_constructor_is_the_model :
 theorem accepts_iff_src' (z : TimeZone) (hr : Spec.LeapInRange z.leapSeconds) :
     Src.TimeZoneRef.check_inputs z = .ok () ↔ Spec.WFZone z := by
   rw [Proofs.SrcEq.check_inputs_eq' z]; exact accepts_iff z hr
+
+/-- the local-time-type clause about the source text: `TzAsciiStr::new` (the 8-byte length-prefixed buffer and its
+    character loop), `LocalTimeType::new`, `with_ut_offset` and the two `equal` functions, translated on every run,
+    are the model's constructor resp. comparison (through `nameOf`, which reads the designation back from the buffer).
+    This is also what justifies the meaning the other translated functions give to `LocalTimeType::new` and `equal`. -/
+theorem translated_local_time_type_is_the_model :
+    (∀ input, (Src.TzAsciiStr.new input).map Proofs.SrcEq.nameOf = TzAsciiStr.new input) ∧
+    (∀ off dst name, (Src.LocalTimeType.new off dst name).map Proofs.SrcEq.lttOf = LocalTimeType.new off dst name) ∧
+    (∀ off, (Src.LocalTimeType.with_ut_offset off).map Proofs.SrcEq.lttOf = LocalTimeType.withUtOffset off) ∧
+    (∀ o1 o2 d1 d2 n1 n2 x y, Src.LocalTimeType.new o1 d1 n1 = .ok x → Src.LocalTimeType.new o2 d2 n2 = .ok y →
+        Src.LocalTimeType.equal x y = (Proofs.SrcEq.lttOf x).equal (Proofs.SrcEq.lttOf y)) :=
+  ⟨Proofs.SrcEq.tz_ascii_str_new_eq, Proofs.SrcEq.ltt_new_eq, Proofs.SrcEq.ltt_with_ut_offset_eq,
+   fun o1 o2 d1 d2 n1 n2 x y hx hy => Proofs.SrcEq.ltt_equal_eq o1 o2 d1 d2 n1 n2 x y hx hy⟩
 
 end TzVerif.C13
